@@ -130,7 +130,8 @@ def run(ck, ix, tier):
         ck.check(len(ad) == 1 and norm(ad[0].args[1]) == cont, "G-PROV", f"nonmult_convert|{cont}-reference-unit-added", fi.loc(), f"reference unit of {var} added to {cont}",
                  f"the reference unit of `{var}` is not added back to `{cont}`")
     # delta guard: converting offset -> delta (or delta -> offset) is refused
-    dg = [t for t in walk_local(fi.node) if isinstance(t, ast.If) and "startswith('delta_')" in norm(t.test)]
+    from .. import shape as _sh6
+    dg = [t for t in walk_local(fi.node) if isinstance(t, ast.If) and "startswith('delta_')" in norm(_sh6.expand(ix, fi, t.test)).replace('"', "'")]  # sees through a private helper / module constant
     ck.check(len(dg) == 2 and all(any(isinstance(r, ast.Raise) and "DimensionalityError" in norm(r) for r in ast.walk(t)) for t in dg), "G-DOM", "nonmult_convert|offset-delta-mixing-refused", fi.loc(),
              "offset <-> delta conversion raises DimensionalityError", "the refusal of offset <-> delta conversions is gone")
     for t in dg:
@@ -460,7 +461,13 @@ def muldiv_rules(ck, ix):
     ck.check("magnitude_op(self._magnitude, other._magnitude)" in src and "units_op(self._units, other._units)" in src, "G-TAG", "_imul_div|magnitude-and-units-from-same-objects", fi.loc(),
              "magnitude and units are taken from the same objects", "magnitude and units in _imul_div are no longer taken from the same objects")
     fi = ix.func(PQ, "PlainQuantity.__rtruediv__")
-    ck.check("other_magnitude / self._magnitude" in norm(fi.node) and "1 / self._units" in norm(fi.node), "G-TAG", "__rtruediv__|number-over-quantity", fi.loc(),
+    # the result is built from (number / magnitude of X, 1 / units of X) for one and the same X (self, possibly converted to root units)
+    ctor = [c_ for c_ in walk_local(fi.node) if isinstance(c_, ast.Call) and norm(c_.func) in ("self.__class__", "type(self)") and len(c_.args) == 2]
+    okr = len(ctor) == 1 and isinstance(ctor[0].args[0], ast.BinOp) and isinstance(ctor[0].args[0].op, ast.Div) and isinstance(ctor[0].args[1], ast.BinOp) and isinstance(ctor[0].args[1].op, ast.Div)
+    if okr:
+        m_, u_ = ctor[0].args
+        okr = norm(m_.right).endswith("._magnitude") and norm(u_.right).endswith("._units") and norm(m_.right)[:-len("._magnitude")] == norm(u_.right)[:-len("._units")] and norm(u_.left) == "1" and "other" in " ".join(defs_of(fi).roots(m_.left))
+    ck.check(okr, "G-TAG", "__rtruediv__|number-over-quantity", fi.loc(),
              "other / self with reciprocal units", "__rtruediv__ no longer computes other / self with reciprocal units")
 
     # powers: non-multiplicative => autoconvert to root/base units or raise
